@@ -543,9 +543,22 @@ fn gen_c03(tier: &str, rng: &mut Sm) -> Gen {
     }
     // extreme numeric values: no instruction may panic or abort on them
     single_cases(&mut g, rng, &c, 0, false);
+    // starved states: every instruction with 0, 1 or 2 elements on every value stack and 0, 1 or 2 items on the
+    // exec stack - a missing operand (of any kind, also a missing block) is skipped, never an error
+    {
+        let blocks = [tl![A(100), tl![A(6), A(1)]], tl![A(26)]];
+        for ins in &c.plain {
+            for d in 0..3usize {
+                for e in 0..3usize {
+                    let st = boundary_state(rng, &c, [5i64, -3][..d].to_vec(), [fbits(1.5), fbits(-2.0)][..d].to_vec(), [true, false][..d].to_vec(), blocks[..e].to_vec(), [2, 2, 2, 2]);
+                    g.inputs.push(tl![A(1), strings_tree(), st, ins.clone()]);
+                }
+            }
+        }
+    }
     // unbound input variable: the documented panic (outside the proviso; model value Panic)
     let st = tl![A(5), L(vec![tl![A(31), A(7)]]), A(5), L(vec![]), A(5), L(vec![]), A(5), L(vec![]), L(vec![]), A(5)];
     g.inputs.push(tl![A(0), strings_tree(), st, L(vec![])]);
-    g.meta("generator", "self-replicating / exponentially growing programs x limit sweep x capacities from 0, loop-heavy random programs, nesting depth <= 1000");
+    g.meta("generator", "self-replicating / exponentially growing programs x limit sweep x capacities from 0, loop-heavy random programs, nesting depth <= 1000, every instruction on starved states (0..2 elements per value stack x 0..2 exec items)");
     g
 }
